@@ -145,6 +145,39 @@ class ProtocolTimeCourseWorker(Protocol):
         ...
 
 
+def _time_points_of_time_course(time_points: Array) -> Array:
+    """Time points a successful time course over `time_points` returns (start included)."""
+    time_points = np.array(time_points, dtype=float)
+    time_points = time_points[time_points >= 0]
+    if len(time_points) == 0 or time_points[0] != 0:
+        time_points = np.insert(time_points, 0, 0.0)
+    return time_points
+
+
+def _time_points_of_protocol(
+    protocol: pd.DataFrame,
+    *,
+    time_points_per_step: int | None = None,
+    time_points: Array | None = None,
+) -> Array:
+    """Time points a successful protocol simulation returns.
+
+    Every step contributes `time_points_per_step` points after its start, or, if explicit
+    `time_points` are given, the requested points inside the step and the end of the step.
+    """
+    ends = np.array(
+        cast(pd.TimedeltaIndex, protocol.index).total_seconds(), dtype=float
+    )
+    if time_points is not None:
+        points = np.union1d(ends, np.array(time_points, dtype=float))
+        return np.insert(points[(points > 0) & (points <= ends[-1])], 0, 0.0)
+    grid, t_start = [np.array([0.0])], 0.0
+    for t_end in ends:
+        grid.append(np.linspace(t_start, t_end, cast(int, time_points_per_step) + 1)[1:])
+        t_start = t_end
+    return np.concatenate(grid)
+
+
 def _steady_state_worker(
     model: Model,
     *,
@@ -205,7 +238,11 @@ def _time_course_worker(
     except ZeroDivisionError:
         res = Result(Exception())
 
-    return res.default(lambda: Simulation.default(model=model, time_points=time_points))
+    return res.default(
+        lambda: Simulation.default(
+            model=model, time_points=_time_points_of_time_course(time_points)
+        )
+    )
 
 
 def _protocol_worker(
@@ -241,12 +278,14 @@ def _protocol_worker(
     except ZeroDivisionError:
         res = Result(Exception())
 
-    time_points = np.linspace(
-        0,
-        protocol.index[-1].total_seconds(),
-        len(protocol) * time_points_per_step,
+    return res.default(
+        lambda: Simulation.default(
+            model=model,
+            time_points=_time_points_of_protocol(
+                protocol, time_points_per_step=time_points_per_step
+            ),
+        )
     )
-    return res.default(lambda: Simulation.default(model=model, time_points=time_points))
 
 
 def _protocol_time_course_worker(
@@ -282,7 +321,12 @@ def _protocol_time_course_worker(
     except ZeroDivisionError:
         res = Result(Exception())
 
-    return res.default(lambda: Simulation.default(model=model, time_points=time_points))
+    return res.default(
+        lambda: Simulation.default(
+            model=model,
+            time_points=_time_points_of_protocol(protocol, time_points=time_points),
+        )
+    )
 
 
 @dataclass(kw_only=True, slots=True)
